@@ -348,25 +348,31 @@ inductive RespBody
   | offsetFetch (topics : List (Bytes × List (Int × Int × Option Bytes × Int)))  -- partition, offset, metadata, error
 deriving Repr
 
+def encBrokerMeta (b : BrokerMeta) : Bytes := eI32 b.nodeId ++ eStr b.host ++ eI32 b.port
+def encPartMeta (p : PartMeta) : Bytes :=
+  eI16 p.err ++ eI32 p.id ++ eI32 p.leader ++ eArr eI32 p.replicas ++ eArr eI32 p.isr
+def encTopicMeta (t : TopicMeta) : Bytes := eI16 t.err ++ eStr t.name ++ eArr encPartMeta t.parts
+def encFetchPartResp (p : FetchPartResp) : Bytes := eI32 p.partition ++ eI16 p.err ++ eI64 p.hw ++ eBytes p.set
+
+/-- topic name followed by the array of its per-partition entries -/
+def encRespTopic {α} (e : α → Bytes) (t : Bytes × List α) : Bytes := eStr t.1 ++ eArr e t.2
+
+def encProducePartResp (x : Int × Int × Int) : Bytes := eI32 x.1 ++ eI16 x.2.1 ++ eI64 x.2.2
+def encOffsetPartResp (x : Int × Int × List Int) : Bytes := eI32 x.1 ++ eI16 x.2.1 ++ eArr eI64 x.2.2
+def encListOffsetPartResp (x : Int × Int × Int × Int) : Bytes := eI32 x.1 ++ eI16 x.2.1 ++ eI64 x.2.2.1 ++ eI64 x.2.2.2
+def encCommitPartResp (x : Int × Int) : Bytes := eI32 x.1 ++ eI16 x.2
+def encOffsetFetchPartResp (x : Int × Int × Option Bytes × Int) : Bytes :=
+  eI32 x.1 ++ eI64 x.2.1 ++ eNStr x.2.2.1 ++ eI16 x.2.2.2
+
 def encRespBody : RespBody → Bytes
-  | .metadata bs ts =>
-    eArr (fun b => eI32 b.nodeId ++ eStr b.host ++ eI32 b.port) bs ++
-    eArr (fun t => eI16 t.err ++ eStr t.name ++
-      eArr (fun p => eI16 p.err ++ eI32 p.id ++ eI32 p.leader ++ eArr eI32 p.replicas ++ eArr eI32 p.isr) t.parts) ts
-  | .produce ts =>
-    eArr (fun (t, ps) => eStr t ++ eArr (fun (p, e, o) => eI32 p ++ eI16 e ++ eI64 o) ps) ts
-  | .fetch ts =>
-    eArr (fun (t, ps) => eStr t ++
-      eArr (fun p => eI32 p.partition ++ eI16 p.err ++ eI64 p.hw ++ eBytes p.set) ps) ts
-  | .offsets ts =>
-    eArr (fun (t, ps) => eStr t ++ eArr (fun (p, e, os) => eI32 p ++ eI16 e ++ eArr eI64 os) ps) ts
-  | .listOffsets ts =>
-    eArr (fun (t, ps) => eStr t ++ eArr (fun (p, e, ts, o) => eI32 p ++ eI16 e ++ eI64 ts ++ eI64 o) ps) ts
+  | .metadata bs ts => eArr encBrokerMeta bs ++ eArr encTopicMeta ts
+  | .produce ts => eArr (encRespTopic encProducePartResp) ts
+  | .fetch ts => eArr (encRespTopic encFetchPartResp) ts
+  | .offsets ts => eArr (encRespTopic encOffsetPartResp) ts
+  | .listOffsets ts => eArr (encRespTopic encListOffsetPartResp) ts
   | .groupCoordinator e n h p => eI16 e ++ eI32 n ++ eStr h ++ eI32 p
-  | .offsetCommit ts =>
-    eArr (fun (t, ps) => eStr t ++ eArr (fun (p, e) => eI32 p ++ eI16 e) ps) ts
-  | .offsetFetch ts =>
-    eArr (fun (t, ps) => eStr t ++ eArr (fun (p, o, m, e) => eI32 p ++ eI64 o ++ eNStr m ++ eI16 e) ps) ts
+  | .offsetCommit ts => eArr (encRespTopic encCommitPartResp) ts
+  | .offsetFetch ts => eArr (encRespTopic encOffsetFetchPartResp) ts
 
 /-- response payload: correlation id then the body -/
 def encResponse (corr : Int) (b : RespBody) : Bytes := eI32 corr ++ encRespBody b
